@@ -255,8 +255,8 @@ def main(argv=None):
         print('   max %s=%s' % (k, m['maxima'][k]))
     for k in sorted(m['sets']):
         print('   |%s|=%d' % (k, len(m['sets'][k])))
-    for nline in m['notes'][:10]:
-        print('   note: ' + str(nline)[:120] + ' ... ' + str(nline)[-500:])
+    for nline in m['notes'][:2]:
+        print('   note: ' + str(nline)[:60] + ' ... ' + str(nline)[-400:].replace(chr(10), ' | '))
     if unknown:
         return 1
     if unmet:
